@@ -141,7 +141,9 @@ package state
 // (same order, same parties, same amounts); a rejected transfer queues nothing.  (C04, C05)
 //@ func (*StateContext).AddTransfer
 //@   prop C05, C04
-//@   requires queuedOK(sc) && t != nil && held(sc.mutex) == 0
+//@   requires queuedOK(sc) && t != nil && held(sc.mutex) == 0 && sc.txn != nil
+// (C04) tokens can be queued to leave only the transaction's sender or the called contract's own wallet
+//@   ensures[only-sender-or-called-contract] result == nil ==> t.ClientID == sc.txn.ClientID || t.ClientID == sc.txn.ToClientID
 //@   ensures[appended] result == nil ==> len(sc.transfers) == old(len(sc.transfers)) + 1 && sc.transfers[old(len(sc.transfers))] == t
 //@   ensures[earlier-kept] forall i in 0..old(len(sc.transfers)) :: sc.transfers[i] == old(sc.transfers[i])
 //@   ensures[earlier-unaltered] forall i in 0..old(len(sc.transfers)) :: sc.transfers[i].Amount == old(sc.transfers[i].Amount) && sc.transfers[i].ClientID == old(sc.transfers[i].ClientID) && sc.transfers[i].ToClientID == old(sc.transfers[i].ToClientID)
